@@ -25,26 +25,50 @@ PSDist2(w, c, s) == Quad(w.M, PSDx(w, c, s), PSDx(w, c, s))
 IsPS(w, c, s) == /\ Len(s) = 3 /\ s[1] \in DOMAIN w.basis[c] /\ s[2] \in DOMAIN w.basis[c]
                  /\ Len(s[3]) = w.dim
 
-\* space-group action: both members are carried along, the solute's new cell is the new origin
+\* space-group action: both members are carried along, the solute's new cell is the new origin.
+\* (Written with explicit component arithmetic because TLC evaluates it tens of thousands of times;
+\* ActPSRef is the same thing through World!ActPos, and ActPSAgrees is checked by the object-model run.)
+SDot(a, b) == IF Len(a) = 2 THEN a[1] * b[1] + a[2] * b[2] ELSE a[1] * b[1] + a[2] * b[2] + a[3] * b[3]
+ActSite(w, c, g, i, L) ==      \* image of site i in cell L: <<site, cell>>
+  LET u == w.basis[c][i]
+      x == [k \in 1..w.dim |-> SDot(g[1][k], [m \in 1..w.dim |-> w.D * L[m] + u[m]]) + g[2][k]]
+      xm == [k \in 1..w.dim |-> x[k] % w.D]
+      i2 == CHOOSE n \in DOMAIN w.basis[c] : w.basis[c][n] = xm
+  IN <<i2, [k \in 1..w.dim |-> (x[k] - w.basis[c][i2][k]) \div w.D]>>
 ActPS(w, c, g, s) ==
+  LET pi == ActSite(w, c, g, s[1], [k \in 1..w.dim |-> 0])
+      pj == ActSite(w, c, g, s[2], s[3])
+  IN <<pi[1], pj[1], [k \in 1..w.dim |-> pj[2][k] - pi[2][k]]>>
+ActPSRef(w, c, g, s) ==
   LET pi == ActPos(w, g[1], g[2], <<c, s[1]>>, VZero(w.dim))
       pj == ActPos(w, g[1], g[2], <<c, s[2]>>, s[3])
   IN <<pi[1][2], pj[1][2], VSub(pj[2], pi[2])>>
+ActPSAgrees(w, c, G, S) == LET GG == G IN \A s \in S : \A g \in GG : ActPS(w, c, g, s) = ActPSRef(w, c, g, s)
+
 Orbit(w, c, G, s) == {ActPS(w, c, g, s) : g \in G}
-Closed(w, c, G, S) == \A s \in S : \A g \in G : ActPS(w, c, g, s) \in S
-StarsOf(w, c, G, S) == {Orbit(w, c, G, s) : s \in S}
+Closed(w, c, G, S) == LET GG == G SS == S IN \A s \in SS : \A g \in GG : ActPS(w, c, g, s) \in SS
+StarsOf(w, c, G, S) == LET GG == G IN {Orbit(w, c, GG, s) : s \in S}
+\* the same partition computed orbit by orbit (needs |stars| x |G| images instead of |S| x |G|);
+\* equal to StarsOf when S is closed under G
+RECURSIVE OrbitPartition(_, _, _, _)
+OrbitPartition(w, c, G, S) ==
+  LET SS == S GG == G IN
+  IF SS = {} THEN {}
+  ELSE LET s == CHOOSE x \in SS : TRUE
+           O == Orbit(w, c, GG, s)
+       IN {O} \cup OrbitPartition(w, c, GG, SS \ O)
 
 Zeros(w, c) == {PSZero(i, w.dim) : i \in DOMAIN w.basis[c]}
 NonZero(S) == {s \in S : ~PSIsZero(s)}
 
 \* all defined sums s1 + s2
-Sum(S1, S2) == UNION {{PSAdd(a, b) : b \in {b2 \in S2 : b2[1] = a[2]}} : a \in S1}
+Sum(S1, S2) == LET T2 == S2 IN UNION {{PSAdd(a, b) : b \in {b2 \in T2 : b2[1] = a[2]}} : a \in S1}
 \* all defined endpoint differences s2 ^ s1 (from the vacancy of s1 to the vacancy of s2, same solute site)
-DiffSet(S1, S2) == UNION {{PSXor(s2, s1) : s2 \in {x \in S2 : x[1] = s1[1]}} : s1 \in S1}
+DiffSet(S1, S2) == LET T2 == S2 IN UNION {{PSXor(s2, s1) : s2 \in {x \in T2 : x[1] = s1[1]}} : s1 \in S1}
 
 \* pair states after exactly k jumps of the vacancy, starting next to ... the solute's own site
 RECURSIVE Walk(_, _)
-Walk(J, k) == IF k <= 0 THEN {} ELSE IF k = 1 THEN J ELSE Sum(Walk(J, k - 1), J)
+Walk(J, k) == IF k <= 0 THEN {} ELSE IF k = 1 THEN J ELSE LET JJ == J IN Sum(Walk(JJ, k - 1), JJ)
 \* the non-zero pair states reachable by one to N jumps
 Reach(J, N) == NonZero(UNION {Walk(J, k) : k \in 1..N})
 \* the same, but along walks that never put the vacancy on the solute's site (must be the same set)
@@ -63,7 +87,9 @@ Den(w, c, J, d) ==
 AddSets(S1, S2) == NonZero(S1 \cup S2 \cup Sum(S1, S2))
 
 \* jumps must be a symmetric network: closed under the group and under reversal
-NetworkOK(w, c, G, J) == /\ \A s \in J : IsPS(w, c, s) /\ ~PSIsZero(s)
-                         /\ Closed(w, c, G, J)
-                         /\ \A s \in J : PSNeg(s) \in J
+NetworkOK(w, c, G, J) ==
+  LET JJ == J IN
+    /\ \A s \in JJ : (IsPS(w, c, s) /\ ~PSIsZero(s))
+    /\ Closed(w, c, G, JJ)
+    /\ \A s2 \in JJ : PSNeg(s2) \in JJ
 =============================================================================
